@@ -1,4 +1,5 @@
 """C06 every switch request reaches exactly one terminal outcome, in bounded time."""
+import json
 from tools import vlib
 from tools import cluster
 
@@ -7,8 +8,20 @@ def run(ctx):
     v = vlib.Verdict(ctx)
     mc = cluster.mc_switchover(ctx, which=["MC_Switchover_faults.cfg"] if ctx.quick else ["MC_Switchover_thorough.cfg"])
     rows, fails, r = vlib.rows_check(ctx, "internal/app", "^TestVerifC06$", "ReqRows", env={}, timeout=7000,
-                                     shards=16, chunk=3000, par=4)
+                                     shards=16, chunk=3000, par=4, hang_ok=True)
     meta = cluster.load_meta(ctx)
+    # a scenario that never ends: a handler of the REAL manager loops for ever (hours of virtual time) while the request
+    # is pending - no attempt is counted, neither the limit nor the timeout is looked at again
+    for h in getattr(ctx, "hangs", []):
+        fns = sorted({f.split(".")[-1] for g in h["stuck"] for f in g["functions"]})
+        if not h["stuck"]:
+            raise vlib.Inconclusive("scenario %s never ended but no goroutine sits in mysync code (harness problem)" % h["scenario"].get("id"))
+        v.fail("C06_ManagerNeverStuck", {"variant": h["scenario"].get("id", "").split("-")[1], "stuck_in": fns[:3]},
+               "the manager never returned from an activation while a request was pending (scenario %s %s); goroutines in "
+               "mysync code: %s" % (h["scenario"].get("id"), h["what"], json.dumps(h["stuck"])[:1200]),
+               {"scenario": h["scenario"], "stuck": h["stuck"],
+                "how": "go test -run TestVerifC06 ./internal/app (overlay) with VERIF_ONLY=<scenario id>; the driver's real-time "
+                       "watchdog (VERIF_HANG_S) dumps the goroutines"})
     for name, i, row in fails:
         sc = meta["scenarios"].get(row.get("scn"))
         sig = {"variant": row["scn"].split("-")[1], "trans": row["trans"], "cause": row["cause"]}
@@ -23,7 +36,7 @@ def run(ctx):
         "traces_validated_against_impl": meta["runs"],
         "evaluations": len(rows), "runs": meta["runs"], "distinct_nontrivial": nontriv,
         "rule": "evaluations = request rows judged (one per switch request seen) of `runs` scenario runs; request kind (to/from/forced failover/worker-written) x history variant (clean, catch-up stuck forever, a "
-                "persistently failing call in freeze / re-point / promote / writable, operator abort early/late, a second "
+                "persistently failing call in freeze / re-point / promote / writable / the status query of the catch-up wait, operator abort early/late, a second "
                 "initiator (worker; automatic failover when the master dies), light maintenance) x attempt limit 1-3 x "
                 "switchover timeout {12 s, 1 h}, 40 rounds of 1 s on the virtual clock; one row per request identity; "
                 "non-trivial = the request was attempted or reached an outcome",
